@@ -38,6 +38,8 @@ __all__ = [
     "WorkQueueTerminationEvent",
     "WorkResult",
     "WorkTask",
+    "cancel_task",
+    "cancel_work",
 ]
 
 _UNSET: Any = object()
@@ -108,6 +110,50 @@ class Work(NamedTuple):
     groups: Sequence[Group] = ()
     tasks: Sequence[WorkTask] = ()
     streams: Sequence[Stream] = ()
+
+
+def cancel_work(
+    work: Work | None,
+    reason: BaseException | None,
+    cancel_awaitables: list[Awaitable[Any]],
+) -> None:
+    """Cancel the tasks and streams of work that is not part of a work graph.
+
+    The awaitables for the asynchronous part of the cancellation are added to
+    the given list. For internal use only.
+    """
+    if work:
+        for task in work.tasks:
+            cancel_task(task, reason, cancel_awaitables)
+        for stream in work.streams:
+            abort_result = stream.queue.abort(reason)
+            if is_awaitable(abort_result):
+                cancel_awaitables.append(abort_result)
+
+
+def cancel_task(
+    task: WorkTask,
+    reason: BaseException | None,
+    cancel_awaitables: list[Awaitable[Any]],
+) -> None:
+    """Cancel a task that is not part of a work graph.
+
+    A computation that is already running is cancelled by aborting it; its
+    future is awaited as well so that the cancelled work has unwound before
+    the cancellation is considered complete. When the computation has already
+    produced a result, the work reported by that result is cancelled instead,
+    since nobody else knows about it. For internal use only.
+    """
+    computation = task.computation
+    pending_future = computation.pending_future
+    result = computation.settled_value
+    abort_result = computation.abort(reason)
+    if pending_future is not None:
+        cancel_awaitables.append(pending_future)
+    if is_awaitable(abort_result):
+        cancel_awaitables.append(abort_result)
+    if result is not None:
+        cancel_work(result.work, reason, cancel_awaitables)
 
 
 # internal graph events
@@ -314,26 +360,13 @@ class WorkQueue:
         while not channel.empty():
             graph_event = channel.get_nowait()
             if isinstance(graph_event, _TaskSuccess):
-                self._cancel_work(graph_event.result.work, reason, cancel_awaitables)
+                cancel_work(graph_event.result.work, reason, cancel_awaitables)
             elif isinstance(graph_event, _StreamItems):
                 for item in graph_event.items:
-                    self._cancel_work(item.work, reason, cancel_awaitables)
+                    cancel_work(item.work, reason, cancel_awaitables)
         channel.put_nowait(_STOP)  # keep waking up a parked event consumer
         if cancel_awaitables:
             await gather(*cancel_awaitables, return_exceptions=True)
-
-    def _cancel_work(
-        self,
-        work: Work | None,
-        reason: BaseException | None,
-        cancel_awaitables: list[Awaitable[Any]],
-    ) -> None:
-        """Cancel the tasks and streams of work that has not been integrated."""
-        if work:
-            for task in work.tasks:
-                self._cancel_task(task, reason, cancel_awaitables)
-            for stream in work.streams:
-                self._cancel_stream(stream, reason, cancel_awaitables)
 
     def _cancel_group(
         self,
@@ -358,19 +391,14 @@ class WorkQueue:
         cancel_awaitables: list[Awaitable[Any]],
     ) -> None:
         """Cancel a task with the streams produced by it."""
-        # A computation that is already running is cancelled by aborting it; its
-        # future is awaited as well so that the cancelled work has unwound before
-        # the cancellation is considered complete.
-        pending_future = task.computation.pending_future
-        abort_result = task.computation.abort(reason)
-        if pending_future is not None:
-            cancel_awaitables.append(pending_future)
-        if is_awaitable(abort_result):
-            cancel_awaitables.append(abort_result)
         task_node = self._task_nodes.get(task)
-        if task_node:
+        if task_node and task_node.value is not _UNSET:
+            # The work produced by the task has been integrated into the graph,
+            # except for its streams which are held back until it is delivered.
             for child_stream in task_node.child_streams:
                 self._cancel_stream(child_stream, reason, cancel_awaitables)
+        else:
+            cancel_task(task, reason, cancel_awaitables)
 
     def _cancel_stream(
         self,
@@ -577,8 +605,14 @@ class WorkQueue:
         task, result = graph_event
         value, work = result
         task_node = self._task_nodes.get(task)
-        if task_node:
-            task_node.value = value
+        if not task_node:
+            # The task has been removed because all of its groups have failed,
+            # so the work it has produced will never be delivered.
+            cancel_awaitables: list[Awaitable[Any]] = []
+            cancel_work(work, None, cancel_awaitables)
+            self._settle_discarded(cancel_awaitables)
+            return []
+        task_node.value = value
         self._maybe_integrate_work(work, task)
 
         group_events: list[GroupValuesEvent | GroupSuccessEvent] = []
@@ -701,6 +735,10 @@ class WorkQueue:
         cancel_awaitables: list[Awaitable[Any]] = []
         self._cancel_task(task, None, cancel_awaitables)
         self._remove_task(task)
+        self._settle_discarded(cancel_awaitables)
+
+    def _settle_discarded(self, cancel_awaitables: list[Awaitable[Any]]) -> None:
+        """Settle the cancellation of discarded work in the background."""
         if cancel_awaitables:
             discard_futures = self._discard_futures
             discard_future = gather(*cancel_awaitables, return_exceptions=True)
